@@ -6,6 +6,7 @@ spec forms:
   ["fn",name] callable (builtin / lambda / plain function)     ["g"] generator object
   ["l",[..]] ["st",[..]] ["t",[..]] ["d",[[k,v]..]] ["dd",[[k,v]..]]
   ["tw",kind,id]  tripwire object (C03; see tripwires.py)
+  ["lib",name]    an instance of a standard-library class (csv dialect, lock, BytesIO, Decimal, ...)
   ["fk",n]        a callable proxy whose __code__/__wrapped__ lookups raise RuntimeError the first n times (transient lookup fault)
   ["hb",name]     an object of a hidden builtin class (dict_keys, list_iterator, ...)
   ["sh",n,spec]   the session's n-th shared object (built once from spec, then the same object every time)
@@ -72,6 +73,8 @@ def build(spec, classes, tw=None, shared=None):
         return d
     if t == "hb":
         return HIDDEN_BUILTINS[spec[1]]()
+    if t == "lib":
+        return LIB_VALUES[spec[1]]()
     if t == "fk":
         from . import rt
 
@@ -85,6 +88,45 @@ def build(spec, classes, tw=None, shared=None):
 HIDDEN_BUILTINS = {"dict_keys": lambda: {"a": 1}.keys(), "dict_values": lambda: {"a": 1}.values(), "list_iterator": lambda: iter([1]),
                    "range_iterator": lambda: iter(range(2)), "builtin_function_or_method_self": lambda: type(len)}
 
+def _lib_values():
+    """Instances of standard-library classes, among them classes that live in private accelerator modules (_csv, _thread, _io, ...)
+    whose public module exposes another object under the same name.  Only classes that can be imported back by
+    (__module__, __qualname__) are offered: a stub can name them and a stored trace can be decoded."""
+    import array
+    import csv
+    import datetime
+    import decimal
+    import fractions
+    import importlib
+    import io
+    import itertools
+    import pathlib
+    import re
+    import threading
+    import uuid
+
+    cands = {
+        "csv_dialect": lambda: csv.get_dialect("excel"), "lock": lambda: threading.Lock(), "rlock": lambda: threading.RLock(), "bytesio": lambda: io.BytesIO(b"x"),
+        "stringio": lambda: io.StringIO("x"), "decimal": lambda: decimal.Decimal(1), "date": lambda: datetime.date(2020, 1, 2), "fraction": lambda: fractions.Fraction(1, 2),
+        "purepath": lambda: pathlib.PurePosixPath("a/b"), "pattern": lambda: re.compile("a"), "uuid": lambda: uuid.UUID(int=7), "array": lambda: array.array("i", [1]),
+        "count": lambda: itertools.count(), "ordereddict_keys": lambda: decimal.Context(),
+    }
+    out = {}
+    for name, mk in cands.items():
+        try:
+            t = type(mk())
+            obj = importlib.import_module(t.__module__)
+            for part in t.__qualname__.split("."):
+                obj = getattr(obj, part)
+            if obj is t:
+                out[name] = mk
+        except Exception:
+            pass
+    return out
+
+
+LIB_VALUES = _lib_values()
+
 HASHABLE_ATOMS = ("i", "s", "b", "f", "n", "by")
 
 
@@ -92,6 +134,8 @@ def gen_atom(rng, kn, classes):
     if kn.get("tw_p") and rng.random() < kn["tw_p"]:
         kn["_tw"][0] += 1
         return ["tw", rng.choice(kn["tw_kinds"]), kn["_tw"][0]]
+    if kn.get("lib_values") and rng.random() < 0.08:
+        return ["lib", rng.choice(sorted(LIB_VALUES))]
     if kn.get("flaky_p") and rng.random() < kn["flaky_p"]:
         return ["fk", rng.choice([1, 1, 2, 4])]
     if kn.get("hidden_builtins") and rng.random() < 0.06:
@@ -192,7 +236,7 @@ def gen_big_container(rng):
     return ["st", [["i", i] for i in range(n)]]
 
 
-BURST_FAMILIES = ["tuples", "atoms", "dicts", "lists", "mixed", "dictlists", "empties"]
+BURST_FAMILIES = ["tuples", "atoms", "dicts", "lists", "mixed", "dictlists", "empties", "bigsets"]
 
 
 def gen_burst_value(rng, family, classes, kn):
@@ -210,6 +254,17 @@ def gen_burst_value(rng, family, classes, kn):
         n = rng.choice([1, 1, 2])
         keys = rng.sample(range(ks), min(n, ks))
         return ["d", [[["s", "k%d" % k], gen_atom(rng, kn, classes)] for k in keys]]
+    if family == "bigsets":
+        # sets / dicts that are either homogeneous or hold more than five unrelated element types in ONE value
+        hetero = [["i", 3], ["s", "a"], ["n"], ["f", 2.5], ["by", "x"], ["t", [["i", 1]]], ["t", []]] + ([["c", c] for c in classes[:2]] if classes else [["c", "int"]])
+        r = rng.random()
+        if r < 0.3:
+            return ["st", [["i", i] for i in range(rng.randint(1, 3))]]
+        if r < 0.6:
+            return ["st", rng.sample(hetero, rng.randint(6, len(hetero)))]
+        if r < 0.8:
+            return ["d", [[["s", "k%d" % i], x] for i, x in enumerate(rng.sample(hetero, rng.randint(6, len(hetero))))]]
+        return ["d", [[["s", "k0"], ["i", 1]]]]
     if family == "empties":
         # empty and non-empty containers of several kinds at one position ([], [1], set(), {1}, {}, {1: 2}, (), (1,))
         return [["l", []], ["l", [["i", 1]]], ["st", []], ["st", [["i", 1]]], ["d", []], ["d", [[["i", 1], ["i", 2]]]], ["t", []], ["t", [["i", 1]]],
